@@ -506,6 +506,7 @@ def check(run):
             run.count('harness_' + str(o['harness'])[:40])
     check_refused_write(run)
     check_interrupted_stop(run)
+    check_restored_block_with_async_init(run)
 
 
 def check_interrupted_stop(run):
@@ -560,6 +561,66 @@ def check_interrupted_stop(run):
                       f"shutdown() under a timeout shorter than a block's stop_async: storage {obs['storage']} "
                       f"(expected both states: Input 5, Counter 4), fresh stop time stamp: {obs['ts_fresh']}; harness: "
                       f"{obs['harness']}", clause='interrupted_stop_incomplete_storage', concrete=True)
+
+
+def check_restored_block_with_async_init(run):
+    """'restarting restores each block to that state and the corresponding output ... after
+    initialisation the storage holds exactly that state' - also for a persistent block that has an
+    asynchronous initialisation routine as well (e.g. one that would measure a fresh value): the
+    restored state wins, the routine is not run for a block that is initialised already."""
+    obs = dict(first=None, second=None, async_runs=0, storage=None, harness=None)
+    store = {}
+
+    def one_run(phase):
+        async def main(loop):
+            edzed.reset_circuit()
+            circuit = edzed.get_circuit()
+
+            class Measured(edzed.AddonPersistence, edzed.AddonAsync, edzed.SBlock):
+                def get_state(self):
+                    return self.output
+
+                def _restore_state(self, state):
+                    self.set_output(state)
+
+                async def init_async(self):
+                    obs['async_runs'] += 1
+                    await asyncio.sleep(0.01)
+                    self.set_output('measured')
+
+                def _event_put(self, *, value, **_data):
+                    self.set_output(value)
+            blk = Measured('m', persistent=True, init_timeout=1.0)
+            circuit.set_persistent_data(store)
+            task = asyncio.create_task(circuit.run_forever())
+            await circuit.wait_init()
+            obs[phase] = blk.output
+            if phase == 'first':
+                blk.event('put', value='B')
+            else:
+                obs['storage'] = store.get(blk.key)
+            await circuit.shutdown()
+            await asyncio.wait([task], timeout=2.0)
+        vloop.run_virtual(main, wall_limit_s=10.0)
+    try:
+        one_run('first')
+        one_run('second')
+    except BaseException as err:                          # noqa
+        obs['harness'] = repr(err)[:200]
+    finally:
+        edzed.reset_circuit()
+    run.add_case(dict(restored_block_with_async_init=True), True)
+    run.count('restored_block_with_async_init')
+    ok = (obs['harness'] is None and obs['first'] == 'measured' and obs['second'] == 'B'
+          and obs['storage'] == 'B' and obs['async_runs'] == 1)
+    run.add_obligation(ok)
+    if not ok:
+        run.violation('monitor', dict(case=dict(restored_block_with_async_init=True), observed=obs),
+                      f"persistent block with an init_async routine: first run initialised by the routine "
+                      f"({obs['first']!r}), put 'B', regular stop; after the restart the output is {obs['second']!r} "
+                      f"and the storage holds {obs['storage']!r} (expected 'B' twice), init_async ran "
+                      f"{obs['async_runs']} time(s) in total (expected 1); harness: {obs['harness']}",
+                      clause='restored_state_overwritten_by_async_init', concrete=True)
 
 
 def check_refused_write(run, only=None):
@@ -626,6 +687,8 @@ def replay(run, path):
     _, case = common.load_replay_case(path)
     if isinstance(case, dict) and 'interrupted_stop' in case:
         return common.directed_replay(run, path, lambda: check_interrupted_stop(run))
+    if isinstance(case, dict) and 'restored_block_with_async_init' in case:
+        return common.directed_replay(run, path, lambda: check_restored_block_with_async_init(run))
     if isinstance(case, dict) and 'refused_write' in case:
         return common.directed_replay(run, path, lambda: check_refused_write(run, case['refused_write']))
     return common.std_replay(run, C06(), path)
